@@ -357,7 +357,7 @@ def match_template(template, fn, what):
     return m.data
 
 
-REFERENCE = {"defaultWeight": 1, "shortcutLen": 1, "shortcutIdx": 0, "dropZero": True, "copyOperand": False}
+REFERENCE = {"defaultWeight": 1, "shortcutLen": 1, "shortcutIdx": 0, "dropZero": True, "copyOperand": True}
 
 
 def extract():
